@@ -284,3 +284,56 @@ def scenarios(tier):
     for solver, vs in (("crank_nicolson", "jax.sparse"), ("fwd_euler", "jaxley.stone")):
         S.append(Scenario(R1, stim_sets[2], clamp_sets[1], T_len=3, solver=solver, vs=vs))
     return S
+
+
+def scenario_dict(sc):
+    return dict(recs=[list(r) for r in sc.recs], stims=[[k, [list(t) for t in ts], n] for k, ts, n in sc.stims], clamps=[[k, st, list(bc), n] for k, st, bc, n in sc.clamps],
+                T_len=sc.T_len, t_max=sc.t_max, dt=sc.dt, solver=sc.solver, vs=sc.vs, offset=sc.offset)
+
+
+def native_replay(scd, checkpoint_lengths=None):
+    """E3 for the time-axis obligations: the scenario IS the failing input.  It is built natively (the unique waveform tags
+    scaled to small distinct numbers), the real jx.integrate runs, and its output is compared with an oracle that is computed
+    from the scenario's CALL LIST: the model is stepped by hand with the step function of build_init_and_step_fn, the inputs of
+    step k are sample k of the waveforms on the compartments the calls named, and row r is the r-th distinct record request."""
+    try:
+        import jax
+        jax.config.update("jax_enable_x64", True)
+        import jax.numpy as rjnp
+        import jaxley as jx
+        from jaxley.integrate import build_init_and_step_fn
+        sc = Scenario([tuple(r) for r in scd["recs"]], [(k, [tuple(t) for t in ts], n) for k, ts, n in scd["stims"]],
+                      [(k, st, tuple(bc), n) for k, st, bc, n in scd["clamps"]], T_len=scd["T_len"], t_max=scd["t_max"], dt=scd["dt"], solver=scd["solver"], vs=scd["vs"], offset=scd.get("offset", 0))
+        f = lambda a: (np.asarray(a, dtype=float) - 1000.0) * 0.02          # tag -> small distinct number
+        cell, ds, dc = sc.build()
+        tag_of = {repr(t): tag for tag, t in sc.sy.names.items()}
+        cell.externals = {k: rjnp.asarray(f(v)) for k, v in cell.externals.items()}
+        num = lambda d: None if d is None else (d[0], rjnp.asarray(f(np.vectorize(lambda t: float(tag_of[repr(t)]) if isinstance(t, T) else float(t))(np.asarray(d[1], dtype=object)).astype(float))), d[2])
+        got = np.asarray(jx.integrate(cell, delta_t=sc.dt, t_max=sc.t_max, solver=sc.solver, voltage_solver=sc.vs, data_stimuli=num(ds), data_clamps=num(dc), checkpoint_lengths=checkpoint_lengths))
+        # oracle
+        cell2, _, _ = sc.build()
+        init_fn, step_fn = build_init_and_step_fn(cell2, voltage_solver=sc.vs, solver=sc.solver)
+        cell2.to_jax()
+        states, params = init_fn([], None, None, sc.dt)
+        exp = sc.expected_recs()
+        n = sc.nsteps()
+        cols = [[float(states[st][ix]) for ix, st in exp]]
+        for k in range(n):
+            ext, inds = {}, {}
+            for key, entries in sc.expected_ext.items():
+                vals = []
+                for (gi, name, row) in entries:
+                    tag = tag_of.get(repr(T("x", name, row, k + sc.offset)))
+                    vals.append(float(f(tag)) if tag is not None and k < sc.T_len else 0.0)
+                ext[key], inds[key] = rjnp.asarray(vals), rjnp.asarray([gi for gi, _, _ in entries])
+            states = step_fn(states, params, ext, inds, sc.dt)
+            cols.append([float(states[st][ix]) for ix, st in exp])
+        want = np.asarray(cols).T
+        if got.shape != want.shape:
+            return {"reproduced": True, "scenario": scd, "integrate_shape": list(got.shape), "oracle_shape": list(want.shape)}
+        d = np.abs(got - want)
+        bad = np.argwhere(~(d <= 1e-9 * np.maximum(1.0, np.abs(want))))
+        return {"reproduced": bool(len(bad)), "scenario": scd, "first_mismatch_row_col": bad[0].tolist() if len(bad) else None,
+                "integrate_value": float(got[tuple(bad[0])]) if len(bad) else None, "oracle_value": float(want[tuple(bad[0])]) if len(bad) else None}
+    except Exception as e:
+        return {"reproduced": False, "reason": f"{type(e).__name__}: {str(e)[:200]}"}
